@@ -191,3 +191,36 @@ func VH_C14_colorspace() {
 	near := func(a, b uint8) bool { return int(a)-int(b) <= 2 && int(b)-int(a) <= 2 }
 	vAssert("C14.colorspace.opaque_paint_comes_out_as_asked", near(got.R, c.R) && near(got.G, c.G) && near(got.B, c.B) && got.A == 255)
 }
+
+// C14-H10: a draw with fill and stroke paints the interior with the fill paint and the stroke band
+// with the stroke paint (the stroke on top where they overlap), and "later draws cover earlier
+// ones".  Concrete square, colours from two sets, opaque and translucent stroke, observed on the image.
+func VH_C14_fill_and_stroke() {
+	fillC := []color.RGBA{{255, 0, 0, 255}, {0, 160, 0, 255}}[vChoose(0, 1)]
+	strokeC := []color.RGBA{{0, 0, 255, 255}, {20, 20, 20, 255}}[vChoose(0, 1)]
+	second := vChoose(0, 1) == 1
+	r := New(20, 20, canvas.DPMM(1), canvas.LinearColorSpace{})
+	style := canvas.DefaultStyle
+	style.Fill = canvas.Paint{Color: fillC}
+	style.Stroke = canvas.Paint{Color: strokeC}
+	style.StrokeWidth = 4
+	p := canvas.Rectangle(10, 10).Translate(5, 5) // (5,5)-(15,15): stroke band 3..7 and 13..17
+	r.RenderPath(p, style, canvas.Identity)
+	var over color.RGBA
+	if second {
+		// a later opaque draw over the lower left quarter
+		over = color.RGBA{200, 200, 0, 255}
+		s2 := canvas.DefaultStyle
+		s2.Fill = canvas.Paint{Color: over}
+		r.RenderPath(canvas.Rectangle(7, 7).Translate(1, 1), s2, canvas.Identity)
+	}
+	img := r.Image.(*image.RGBA)
+	at := func(x, y int) color.RGBA { return img.RGBAAt(x, 20-1-y) }
+	vAssert("C14.fillstroke.interior_has_fill_paint", at(11, 11) == fillC)
+	vAssert("C14.fillstroke.band_has_stroke_paint", at(15, 10) == strokeC && at(10, 15) == strokeC && at(14, 14) == strokeC)
+	vAssert("C14.fillstroke.outside_untouched", at(18, 18).A == 0 && at(1, 18).A == 0)
+	if second {
+		vAssert("C14.fillstroke.later_draw_covers", at(4, 4) == over && at(6, 6) == over && at(2, 6) == over)
+		vAssert("C14.fillstroke.later_draw_only_where_it_paints", at(11, 11) == fillC && at(10, 15) == strokeC)
+	}
+}
